@@ -435,7 +435,10 @@ def gen_cases(tier, seed):
         if rng.random() < 0.2 and size + olds < 60000:
             lim = rng.choice([1000, 5000, 50000])
             thr = rng.choice([{"s_read_speed_limit": lim}, {"s_write_speed_limit": lim}, {"c_write_speed_limit": lim},
-                              {"c_read_speed_limit": lim}, {"s_read_speed_limit_per_connection": lim, "c_write_speed_limit": 2 * lim}])
+                              {"c_read_speed_limit": lim}, {"s_read_speed_limit_per_connection": lim, "c_write_speed_limit": 2 * lim},
+                              # 0 = "not limited", spelled out on both sides
+                              {"s_read_speed_limit": 0, "s_write_speed_limit": 0, "c_read_speed_limit": 0, "c_write_speed_limit": 0},
+                              {"s_read_speed_limit_per_connection": 0, "s_write_speed_limit_per_connection": 0}])
         mssc = [1, 3, 7, 64, 536, 1460, 1460, "rand"]
         mss = [rng.choice(mssc) for _ in range(3)]
         if size + olds > 20000:
